@@ -56,6 +56,7 @@ Str(s) == IF s = <<>> THEN "" ELSE s[1] \o Str(Tail(s))
 \* spelling: how the CONTAINER arguments (tag, content, rename_all) are spread over #[serde(..)] attributes; serde merges every
 \* #[serde(..)] attribute of the item, so the wire strings do not depend on it: merged / split (tag + content, then rename_all) /
 \* split_rev (rename_all first) / apart (an unrelated serde argument and a doc comment first, then one attribute per argument)
+\* after_list / between_lists: arguments that are nested lists (bound(..), rename(deserialize = ..)) stand before / between them
 \* collide: three more variants whose wire names are distinct for serde but collapse (pairwise, or two of them onto the third's
 \* de-duplicated spelling) when a backend derives identifiers from them: every variant still has exactly one case with its own wire
 CollSet(n) == CASE n = "not3" -> << <<"n","o","t">>, <<"N","O","T">>, <<"n","o","t","!">> >>
